@@ -24,7 +24,9 @@ CONSTANT StackFramesMax
 
 Old == INSTANCE Queries WITH Dev_NextCycle <- TRUE, Dev_FirstCycle <- TRUE, Dev_KidsCycle <- TRUE,
                              Dev_DestIndex <- TRUE, Dev_NdUnwrapD <- TRUE, Dev_NdKeyStr <- TRUE,
-                             Dev_NdValIndex <- TRUE, Dev_CsIndex <- TRUE, Dev_SizeHint <- TRUE
+                             Dev_NdValIndex <- TRUE, Dev_CsIndex <- TRUE, Dev_SizeHint <- TRUE,
+                             Dev_RsrcRecursion <- TRUE, Dev_FirstDepth <- TRUE, Dev_KidsDepth <- TRUE,
+                             FirstWalkIterative <- FALSE
 
 Recs == ndJsonDeserialize(IOEnv.TRACE)
 
@@ -121,10 +123,14 @@ FamWalker(q) ==
       [] OTHER -> ""
 FamId(o) == IF o.q \in {"extract_text", "extract_text_chunks"} THEN 3 ELSE o.id      \* text extraction reads page 1 = object 3
 
+\* first the walkers as the code is, then (regression of a repaired depth defect) the walkers without any budget
 FamSig(rec, o) ==
-    LET ww == FamWalker(o.q)
-        pr == ChainOutcomeS(rec.fam, rec.len, ww, FamId(o), StackFrames)
-    IN IF ww # "" /\ o.kind = "crash" /\ pr.pc = "overflow" THEN pr.cls ELSE o.q \o "." \o o.kind
+    LET ww  == FamWalker(o.q)
+        pr  == ChainOutcomeS(rec.fam, rec.len, ww, FamId(o), StackFrames)
+        was == Old!ChainOutcomeS(rec.fam, rec.len, ww, FamId(o), StackFrames)
+    IN IF ww # "" /\ o.kind = "crash" /\ pr.pc = "overflow" THEN pr.cls
+       ELSE IF ww # "" /\ o.kind = "crash" /\ was.pc = "overflow" THEN was.cls
+       ELSE o.q \o "." \o o.kind
 
 \* a prediction both stack sizes agree on, else "unsure"
 FamPred(rec, ww, id) ==
